@@ -121,7 +121,7 @@ Qed.
 (* ---------- C11: read-only ragged arrays ---------- *)
 Definition rmutating (d : rdir) (o : rop) : bool :=
   match o with
-  | ROpIterAppend _ | ROpMetaSet => true
+  | ROpIterAppend _ | ROpMetaSet | ROpMetaPop => true
   | ROpTruncate (Some _) => true
   | ROpTruncate None => false        (* rejected as TypeError before the mode is looked at *)
   | ROpMetaClear => r_meta d
@@ -135,11 +135,12 @@ Proof.
   intros [h d] g o HRR Hm Hmut.
   pose proof HRR as (HV & HI & Hd & Hinfo & Hrm & Hme & Hmode & Hty & Hb). cbn [fst snd] in *.
   rewrite Hm in Hmode. unfold rstep.
-  destruct o as [its|[i|]|m|m| |]; cbn [rexec rmutating] in *; try discriminate.
+  destruct o as [its|[i|]|m|m| | |]; cbn [rexec rmutating] in *; try discriminate.
   - unfold riterappend. rewrite Hmode. reflexivity.
   - unfold rtruncate. pose proof HI as (_ & Hids & _). cbn [snd] in Hids. rewrite Hids, Hmode. reflexivity.
   - rewrite Hmode. reflexivity.
   - rewrite Hmut, Hmode. reflexivity.
+  - rewrite Hmode. reflexivity.
 Qed.
 
 (* ---------- reading subarrays back: ra[k] ---------- *)
